@@ -13,5 +13,8 @@ fi
 if [ -f "$demo" ]; then
   (cd /var/tmp && PYTHONPATH="$wt" timeout 600 /venv/bin/python "$demo" >/dev/null 2>&1); echo "demo on changed tree: exit $?"
 fi
+ev="/verif/evidence/$prop.json"
+[ -f "$ev" ] && cp "$ev" "$ev.clean-backup"      # evidence files must come from runs against /repo itself
 cd /verif && VERIF_REPO="$wt" ./check "$prop" --tier "$tier" 2>&1 | grep -E "^(VIOLATION|KNOWN-FINDING|OK|TOOL-FAILURE)|^  \(" | head -8
 echo "check exit: ${PIPESTATUS[0]}"
+[ -f "$ev.clean-backup" ] && mv "$ev.clean-backup" "$ev"
